@@ -14,9 +14,12 @@ SENT_END = ["end.", "stop!", "why?", "done.)", 'said."', "fine.", "okay.", "ther
 NOT_END = ["Mr.", "A.", "3.", "U.S.", "e.g.", "ok:", "THE.", "x.", "42."]
 
 # words that look like block syntax when they start a line
-HAZ_ESCAPED = ["-", "+", "*", ">", "#", "##", "######", "1.", "2)", "10.", "007."]
+HAZ_ESCAPED = ["-", "+", "*", ">", "#", "##", "######", "1.", "2)", "10.", "007.", "123456789.", "123456789)"]
 HAZ_UNESCAPED = ["---", "===", "=", "--", "***", "___", "```", "~~~", ">>", "|", "* * *", "- - -", "+x", "-x",
-                 "#tag", "1.5", "\\", "&", "<", "####### ", ":", "[x]", "[ ]", "1.a", "-1.", "<=", "<-", "<3", ">=", "->", "80>120"]
+                 "#tag", "1.5", "\\", "&", "<", "####### ", ":", "[x]", "[ ]", "1.a", "-1.", "<=", "<-", "<3", ">=", "->", "80>120",
+                 # the same look-alikes at the lengths people really write them (rulers, form blanks, fences with a language)
+                 "====================", "--------------------", "____________________", "~~~~~~~~~~~~~~~~", "```typescript-react",
+                 ">quotedtextfollows", "* * * * * * * * *", "************", "~~~~python-console"]
 
 CODE_SPANS = ["`x`", "`a b`", "`a  b c`", "`` a`b ``", "`foo(bar, baz)`", "`--flag value`", "`*not em*`",
               "`<tag attr>`", "`a. B c`", "`end. Next`"]
